@@ -317,7 +317,7 @@ def case_discovery(seed, allow, tune, predeclare):
     d = tempfile.mkdtemp(prefix="ktv13_")
     if not predeclare and not (allow and tune):
         predeclare = True          # the constructor requires a space when new entries are not allowed / not tuned
-    o = randomsearch.RandomSearchOracle(objective=kt.Objective("score", "min"), max_trials=3, seed=1, hyperparameters=pre if predeclare else None,
+    o = randomsearch.RandomSearchOracle(objective=kt.Objective("score", "min"), max_trials=3, seed=1, hyperparameters=pre.copy() if predeclare else None,   # a copy: the oracle keeps and extends the object it is given
                                         allow_new_entries=allow, tune_new_entries=tune)
     status = "done"
     try:
